@@ -186,6 +186,7 @@ static compact_theta_sketch crafted_theta(Rng& r, uint64_t seed, unsigned bits, 
 // ------------------------------------------------------------------ THETA
 // crafted_bits: 0 = natural state, else entry-bit width of a crafted ordered sketch
 static void case_theta(Rng& r, unsigned crafted_bits) {
+  describe("theta (generating state)");
   const Cfg c = gen_cfg(r);
   const uint64_t k = 1ULL << c.lg_k;
   const uint64_t seed = c.seed;
@@ -315,6 +316,7 @@ template<> struct TupleTraits<Rec> {
 
 template<typename S>
 static void case_tuple(Rng& r) {
+  describe(std::string(TupleTraits<S>::name()) + " (generating state)");
   typedef TupleTraits<S> T;
   typedef compact_tuple_sketch<S> CS;
   typedef typename T::SerDe SD;
@@ -391,6 +393,7 @@ static void case_tuple(Rng& r) {
 #if C09_PART == 1
 // ------------------------------------------------------------------ ARRAY OF DOUBLES
 static void case_aod(Rng& r) {
+  describe("array_of_doubles (generating state)");
   typedef compact_array_of_doubles_sketch CS;
   const Cfg c = gen_cfg(r);
   const uint64_t k = 1ULL << c.lg_k;
